@@ -16,6 +16,16 @@
    reopen may show.  A store that crashes while recovering is a violation; a hang is an infrastructure error.
 The file-operation sequence the model predicts for each history is compared with the calls the real store made;
 a difference is model drift (noted), never an alarm.
+4. Directed families, selected by ghosts of the model (GenFilter) - never by looking at the code under test:
+   X  histories with a compaction at whose rename the log holds an 'X' record that the replay over the NEW snapshot skips
+      (expireAt / persist on a key of the old snapshot that is deleted later): a kill between the snapshot rename and the
+      log reset, reopen, continuation, clean close, reopen (self-test Dev_CutCountsAppliedOnly);
+   L  histories with a clear() of >= 2 keys, first unlimited (run L0 - the driver reports the log size after every file
+      operation), then under EVERY log-size limit that falls between two of them: synchronous size-triggered compaction
+      in and around clear() (KvLog.tla MaxLog, clear() is log-first; self-test Dev_CompactInsideAppend);
+   R  JSON histories in which the background flusher (second actor of JsonFile.tla, `jbg`) has serialised the store and an
+      explicit flush / clean close follows; the driver holds the real flush thread at its first file operation and opens
+      the gate when the history thread meets a mutex the flusher owns (self-test Dev_BgWritesOutsideLock).
 """
 import os, json, re, concurrent.futures as cf
 import vf
@@ -25,19 +35,23 @@ ALL_KINDS = ["set", "setx", "rm", "exp", "per", "batch", "clear", "rmp", "compac
 NOTICK_KINDS = [k for k in ALL_KINDS if k != "tick"]
 TTL_KINDS = ["setx", "exp", "per", "compact", "reopen", "tick"]      # expiry changes around compaction and the clock jump
 KV_ACTIONS = ["Call", "Ret", "StepAppend", "StepWriteTmp", "StepRename", "StepCloseLog", "StepTruncLog", "StepOpenAppend",
-              "CrashBetween", "CrashInAppend", "CrashInWriteTmp", "CleanClose", "Reopen", "TimePasses"]
+              "StepMemClear", "CrashBetween", "CrashInAppend", "CrashInWriteTmp", "CleanClose", "Reopen", "TimePasses"]
 JS_ACTIONS = ["JSet", "JRm", "CallFlush", "RetFlush", "StepOpenTmp", "StepWriteTmp", "StepRename", "CrashBetween",
-              "CrashInWrite", "CleanClose", "Reopen"]
+              "CrashInWrite", "CleanClose", "Reopen", "BgStart", "BgOpenTmp", "BgWriteTmp", "BgRename", "CrashInBgWrite"]
 # model file operation -> the calls the interposer sees for it (CloseLog = fclose: not a mutating call)
 FOP_CALLS = {"Append": ["write"], "WriteTmp": ["open_trunc", "write"], "Rename": ["rename"], "CloseLog": [],
-             "TruncLog": ["open_trunc"], "OpenAppend": ["open_append"]}
+             "TruncLog": ["open_trunc"], "OpenAppend": ["open_append"], "MemClear": []}
+ORPHAN_KINDS = ["set", "setx", "exp", "per", "rm", "compact"]     # family "orphan": 'X' records for keys deleted later
+CLEAR_KINDS = ["set", "batch", "rm", "clear"]                     # family "clear2": clear() of >= 2 keys under a log-size limit
+LIMIT_KINDS = ["set", "exp", "batch", "rm", "rmp", "clear", "compact", "reopen"]
 
 
 def kv_module(ck, name, **const):
     d = os.path.join(ck.work, name)
     os.makedirs(d, exist_ok=True)
     c = dict(NK=2, NV=2, NE=1, MaxOps=3, MaxCrash=2, Dev_TornTailNotTruncated=False, Dev_TruncLogBeforeRename=False,
-             Dev_SnapshotExpiryCheckedEarly=False, Emit=False)
+             Dev_SnapshotExpiryCheckedEarly=False, Dev_CutCountsAppliedOnly=False, Dev_CompactInsideAppend=False,
+             MaxLog=0, Emit=False, GenFilter="")
     kinds = const.pop("kinds", ALL_KINDS)
     invs = const.pop("invariants", ["Inv_Recovered", "Inv_MemIsBase", "Inv_Files"])
     c.update(const)
@@ -45,6 +59,7 @@ def kv_module(ck, name, **const):
         f.write("---- MODULE MCKvLog ----\nEXTENDS KvLog\nMCKinds == %s\n====\n" % vf.tla(set(kinds)))
     consts = dict(c)
     consts["OpKinds"] = "<- MCKinds"
+    consts["GenFilter"] = '"%s"' % c["GenFilter"]
     cfg = os.path.join(d, "MCKvLog.cfg")
     vf.write_cfg(cfg, constants=consts, invariants=invs)
     return os.path.join(d, "MCKvLog.tla"), cfg
@@ -53,7 +68,7 @@ def kv_module(ck, name, **const):
 def js_module(ck, name, **const):
     d = os.path.join(ck.work, name)
     os.makedirs(d, exist_ok=True)
-    c = dict(NK=2, NV=2, MaxOps=5, MaxCrash=2, Dev_JsonSaveTruncatesInPlace=False, Emit=False)
+    c = dict(NK=2, NV=2, MaxOps=5, MaxCrash=2, Dev_JsonSaveTruncatesInPlace=False, Dev_BgWritesOutsideLock=False, Emit=False)
     invs = const.pop("invariants", ["Inv_Recovered", "Inv_FileNeverTorn"])
     c.update(const)
     with open(os.path.join(d, "MCJsonFile.tla"), "w") as f:
@@ -108,6 +123,8 @@ def cex_history(r):
             ops.append("jrm %d" % ctx["k"])
         elif name == "CallFlush":
             ops.append("jflush")
+        elif name == "BgStart":
+            ops.append("jbg")
     return ";".join(ops)
 
 
@@ -132,7 +149,7 @@ def run(ck):
     # ------------------------------------------------------------------ 1. model checking, self-tests, generators
     jobs = []
     mod, cfg = kv_module(ck, "mc", MaxOps=3)
-    jobs.append(("kv_mc", mod, cfg, dict(workers=6, coverage=True, timeout=1500)))
+    jobs.append(("kv_mc", mod, cfg, dict(workers=4, coverage=True, timeout=1500)))
     if thorough:
         mod, cfg = kv_module(ck, "mc4", MaxOps=4, kinds=NOTICK_KINDS)
         jobs.append(("kv_mc4", mod, cfg, dict(workers=8, timeout=2400)))
@@ -147,10 +164,33 @@ def run(ck):
     jobs.append(("kv_dev_torn", mod, cfg, dict(workers=1, dump_trace=os.path.join(ck.work, "cex_torn.json"))))
     mod, cfg = kv_module(ck, "dev_order", Dev_TruncLogBeforeRename=True, invariants=["Inv_Recovered"])
     jobs.append(("kv_dev_order", mod, cfg, dict(workers=1, dump_trace=os.path.join(ck.work, "cex_order.json"))))
+    # size-triggered (inline) compaction: the log limit counted in records
+    mod, cfg = kv_module(ck, "mcL", kinds=LIMIT_KINDS, MaxOps=3, MaxLog=2)
+    jobs.append(("kv_mcL", mod, cfg, dict(workers=3, coverage=True, timeout=1500)))
+    if thorough:
+        mod, cfg = kv_module(ck, "mcL1", kinds=LIMIT_KINDS, MaxOps=4, MaxLog=1, NV=1)
+        jobs.append(("kv_mcL1", mod, cfg, dict(workers=4, timeout=2400)))
+    mod, cfg = kv_module(ck, "dev_inl", kinds=[k for k in LIMIT_KINDS if k != "exp"], MaxOps=3, MaxCrash=1, MaxLog=1,
+                         Dev_CompactInsideAppend=True, invariants=["Inv_Recovered"])
+    jobs.append(("kv_dev_inl", mod, cfg, dict(workers=1, dump_trace=os.path.join(ck.work, "cex_inl.json"))))
+    # the torn-tail cut after a replay that skipped a record (orphan 'X' over the snapshot of a half-done compaction)
+    mod, cfg = kv_module(ck, "dev_cut", kinds=["set", "exp", "rm", "compact"], NK=1, NV=1, MaxOps=6, MaxCrash=2,
+                         Dev_CutCountsAppliedOnly=True, invariants=["Inv_Recovered"])
+    jobs.append(("kv_dev_cut", mod, cfg, dict(workers=1, dump_trace=os.path.join(ck.work, "cex_cut.json"))))
+    mod, cfg = kv_module(ck, "mcX", kinds=["set", "exp", "rm", "compact"], NK=2 if thorough else 1, NV=1, MaxOps=6, MaxCrash=2)
+    jobs.append(("kv_mcX", mod, cfg, dict(workers=4 if thorough else 2, timeout=2400)))
+    mod, cfg = kv_module(ck, "genX", kinds=ORPHAN_KINDS, NK=2, NV=1, MaxOps=6, MaxCrash=0, Emit=True, GenFilter="orphan",
+                         invariants=["EmitInv"])
+    jobs.append(("kv_genX", mod, cfg, dict(workers=2)))
+    mod, cfg = kv_module(ck, "genC", kinds=CLEAR_KINDS, NK=3, NV=1, MaxOps=4, MaxCrash=0, Emit=True, GenFilter="clear2",
+                         invariants=["EmitInv"])
+    jobs.append(("kv_genC", mod, cfg, dict(workers=1)))
     mod, cfg = js_module(ck, "jmc", MaxOps=6 if thorough else 5)
     jobs.append(("js_mc", mod, cfg, dict(workers=2, coverage=True)))
     mod, cfg = js_module(ck, "jdev", Dev_JsonSaveTruncatesInPlace=True, invariants=["Inv_Recovered"])
     jobs.append(("js_dev", mod, cfg, dict(workers=1, dump_trace=os.path.join(ck.work, "cex_json.json"))))
+    mod, cfg = js_module(ck, "jdevbg", MaxCrash=1, Dev_BgWritesOutsideLock=True, invariants=["Inv_Recovered"])
+    jobs.append(("js_dev_bg", mod, cfg, dict(workers=1, dump_trace=os.path.join(ck.work, "cex_jsonbg.json"))))
     # generators: crashes off, Emit on
     mod, cfg = kv_module(ck, "gen2", MaxOps=2, MaxCrash=0, Emit=True, NE=2, invariants=["EmitInv"])
     jobs.append(("kv_gen2", mod, cfg, dict(workers=2)))
@@ -167,7 +207,7 @@ def run(ck):
         ck.states += r.distinct
         ck.transitions += r.generated
         ck.note("TLC %s: %s" % (tag, r.summary()))
-    for tag in ("kv_mc", "js_mc", "kv_mc4", "kv_mcT"):
+    for tag in ("kv_mc", "js_mc", "kv_mc4", "kv_mcT", "kv_mcL", "kv_mcL1", "kv_mcX"):
         if tag not in res:
             continue
         r = res[tag]
@@ -183,14 +223,19 @@ def run(ck):
     ck.exhaustive = True
     probes = []
     for tag, what in (("kv_dev_torn", "Dev_TornTailNotTruncated"), ("kv_dev_order", "Dev_TruncLogBeforeRename"),
-                      ("kv_dev_snap", "Dev_SnapshotExpiryCheckedEarly"), ("js_dev", "Dev_JsonSaveTruncatesInPlace")):
+                      ("kv_dev_snap", "Dev_SnapshotExpiryCheckedEarly"), ("kv_dev_cut", "Dev_CutCountsAppliedOnly"),
+                      ("kv_dev_inl", "Dev_CompactInsideAppend"), ("js_dev", "Dev_JsonSaveTruncatesInPlace"),
+                      ("js_dev_bg", "Dev_BgWritesOutsideLock")):
         r = res[tag]
         if r.violated != "Inv_Recovered":
             raise vf.Infra("self-test: Impl with %s = TRUE must violate Inv_Recovered, got %r" % (what, r.violated))
         h = cex_history(r)
         if not h:
             raise vf.Infra("self-test: no counterexample exported for " + what)
-        probes.append((("json" if tag == "js_dev" else "kv maxlog=0 big=0"), h, what))
+        if tag == "kv_dev_inl":
+            limit_probe = h          # run under every log-size limit that falls between two of its records (run L)
+        else:
+            probes.append((("json" if tag.startswith("js_dev") else "kv maxlog=0 big=0"), h, what))
         ck.sample({"kind": "probe: TLC counterexample of %s, replayed on the real store" % what, "history": h})
     # ------------------------------------------------------------------ 2. cases
     rng = ck.rng
@@ -198,13 +243,21 @@ def run(ck):
     longs = hist_lines(res["kv_gen5"])
     jhist = hist_lines(res["js_gen"])
     ttlh = {h: f for h, f in hist_lines(res["kv_genT"]).items() if "tick" in h and ("setx" in h or "exp" in h)}
-    if len(pairs) < 400 or len(longs) < 20 or len(jhist) < 100 or len(ttlh) < 300:
-        raise vf.Infra("generator produced too few histories: %d pairs, %d long, %d json, %d ttl/clock" % (
-            len(pairs), len(longs), len(jhist), len(ttlh)))
+    orph = hist_lines(res["kv_genX"])
+    clr2 = hist_lines(res["kv_genC"])
+    if len(pairs) < 400 or len(longs) < 20 or len(jhist) < 100 or len(ttlh) < 300 or len(orph) < 50 or len(clr2) < 50:
+        raise vf.Infra("generator produced too few histories: %d pairs, %d long, %d json, %d ttl/clock, %d orphan-X, %d clear" % (
+            len(pairs), len(longs), len(jhist), len(ttlh), len(orph), len(clr2)))
     expect = {}
     expect.update(pairs)
     expect.update(longs)
     expect.update(ttlh)
+    expect.update(orph)
+    expect.update(clr2)
+    orph_list = sorted(orph)
+    clr2_list = sorted(clr2)
+    rng.shuffle(orph_list)
+    rng.shuffle(clr2_list)
     ttl_list = sorted(ttlh)
     rng.shuffle(ttl_list)
     pair_list = sorted(pairs)
@@ -214,6 +267,11 @@ def run(ck):
     rng.shuffle(long_list)
     rng.shuffle(j_list)
     interesting = [h for h in long_list if "compact" in h or "reopen" in h]
+    # family "flusher race": the background flusher has serialised the store (jbg) and an explicit flush / clean close follows
+    race_list = [h for h in j_list if re.search(r"jbg;.*(jflush|reopen)", h)]
+    if len(race_list) < 100:
+        raise vf.Infra("generator produced too few background-flusher histories: %d" % len(race_list))
+    r_cases = [("json", h) for h in (race_list if thorough else race_list[:160])]
     if thorough:
         a_cases = [("kv maxlog=0 big=0", h) for h in pair_list] + [("kv maxlog=0 big=0", h) for h in long_list[:500]]
         a_cases += [("kv maxlog=90 big=0", h) for h in long_list[:150]]
@@ -228,14 +286,25 @@ def run(ck):
         b_cases = [("kv maxlog=0 big=0", h) for h in (interesting[:12] + long_list[:12])] + [("json", h) for h in j_list[:10]]
         c_cases = [("kv maxlog=0 big=1", h) for h in long_list[:16]]
     t_cases = [("kv maxlog=0 big=0", h) for h in (ttl_list if thorough else ttl_list[:260])]
+    # family "orphan": a compaction killed between the snapshot rename and the log reset leaves a log whose replay over the
+    # NEW snapshot skips an 'X' record; every level-1 execution is reopen, continuation, clean close, reopen
+    x_cases = [("kv maxlog=0 big=0", h) for h in (orph_list if thorough else orph_list[:70])]
+    # family "clear2" (+ the Dev_CompactInsideAppend counterexample): first without a limit (run L0, which also measures
+    # the log size after every file operation), then under every limit that falls between two records (run L)
+    l0_cases = [("kv maxlog=0 big=0", limit_probe)] + [("kv maxlog=0 big=0", h) for h in (clr2_list if thorough else clr2_list[:24])]
     a_cases = [(c, h) for c, h, _ in probes] + a_cases
     b_cases = [(c, h) for c, h, _ in probes] + b_cases
     runs = [("A", a_cases, 1, "all", "spread", 200000), ("B", b_cases, 2, "all" if thorough else "spread", "spread", 60000),
             ("C", c_cases, 1, "spread", "spread", 200000),
-            ("T", t_cases, 1, "all" if thorough else "spread", "spread", 200000)]
+            ("T", t_cases, 1, "all" if thorough else "spread", "spread", 200000),
+            ("R", r_cases, 1, "spread", "spread", 60000),
+            ("X", x_cases, 2 if thorough else 1, "all" if thorough else "spread", "spread", 60000),
+            ("L0", l0_cases, 1, "spread", "spread", 200000), ("L", None, 1, "all" if thorough else "spread", "spread", 200000)]
     totals = dict(jobs=0, distinct=0, nontrivial_distinct=0, level1=0, level2=0, cut_images=0, dropped=0)
     traces = []
     for name, cases, depth, cuts1, cuts2, cap in runs:
+        if name == "L":
+            cases = limit_cases(ck, traces[-1][1], traces[-1][2])
         stats, out_path = drive(ck, name, cases, depth, cuts1, cuts2, cap)
         for k in totals:
             totals[k] += stats.get(k, 0)
@@ -243,6 +312,7 @@ def run(ck):
             raise vf.Infra("drv_kvcrash: %d history trees exceeded the wall-clock limit (run %s)" % (stats["timeouts"], name))
         traces.append((name, cases, out_path, stats))
         ck.note("run %s: %d histories, depth %d, cuts %s/%s: %s" % (name, len(cases), depth, cuts1, cuts2, json.dumps(stats)))
+    family_selftest(ck, traces)
     ck.evaluations = totals["jobs"]
     ck.nontrivial = totals["nontrivial_distinct"]
     if totals["level1"] == 0 or totals["cut_images"] == 0 or totals["nontrivial_distinct"] == 0 or totals["level2"] == 0:
@@ -255,6 +325,71 @@ def run(ck):
         drift += judge(ck, name, cases, out_path, expect)
     ck.note("model drift (file-operation sequence of a history differs from the Impl expansion): %d histories" % drift)
     selftest_corrupt(ck, traces[0][2])
+
+
+def level0_ends(out_path):
+    """-> {case index: End event of the level-0 execution}"""
+    out = {}
+    for case, lines in split_by_store(out_path)["kv"]:
+        if len(lines) >= 2 and lines[-2].startswith('{"e":"End"'):
+            e = json.loads(lines[-2])
+            if e.get("level") == 0:
+                out[case] = e
+    return out
+
+
+def limit_cases(ck, l0_cases, l0_out):
+    """each history of run L0 under every log-size limit (bytes) that falls between two of its file operations: the sizes
+    are the ones the real store's log had after each call of the unlimited run"""
+    ends = level0_ends(l0_out)
+    cases, nlim = [], 0
+    for i, (c, h) in enumerate(l0_cases):
+        e = ends.get(i)
+        if e is None:
+            continue
+        sizes = sorted(set(int(z) for z in e.get("logsz", "").split(",") if z and int(z) > 0))
+        for t in sizes[:-1]:
+            cases.append(("kv maxlog=%d big=0" % t, h))
+        nlim += max(0, len(sizes) - 1)
+    if len(cases) < len(l0_cases):
+        raise vf.Infra("self-test: no log-size limits derived from run L0 (%d cases from %d histories)" % (len(cases), len(l0_cases)))
+    ck.note("run L: %d histories x log-size limits between their records = %d cases" % (len(l0_cases), len(cases)))
+    return cases
+
+
+def family_selftest(ck, traces):
+    """no vacuity: the directed families reached the situations they are for"""
+    by = {name: (cases, out_path) for name, cases, out_path, stats in traces}
+    # X: some execution was killed inside a compaction right after its rename, and some level-0 history issued 'X' records
+    n = 0
+    with open(by["X"][1]) as f:
+        for ln in f:
+            if ln.startswith('{"e":"Crash"') and '"op":"compact"' in ln and re.search(r'L1:rename#\d+"', ln):
+                n += 1
+    if n == 0:
+        raise vf.Infra("self-test: run X has no execution killed right after a compaction's rename")
+    # L: a size-triggered compaction ran in the phase of a clear() that deleted at least two keys
+    m = 0
+    for case, e in level0_ends(by["L"][1]).items():
+        for seg in e.get("calls", "").split(";"):
+            if seg.startswith("clear:") and "rename" in seg and seg.split(":", 1)[1].split(",")[:2] == ["write", "write"]:
+                m += 1
+    if m == 0:
+        raise vf.Infra("self-test: run L has no clear() of two keys with a size-triggered compaction")
+    # R: the background flusher was really held with an image in hand, and some execution was killed while it wrote
+    held = killed = 0
+    with open(by["R"][1]) as f:
+        for ln in f:
+            if ln.startswith('{"e":"JOp","op":"jbg"') and '"v":1' in ln:
+                held += 1
+            elif ln.startswith('{"e":"Crash"') and '"op":"jbgwait"' in ln:
+                killed += 1
+    if held == 0 or killed == 0:
+        raise vf.Infra("self-test: run R never held the background flusher at its first file operation (%d) / never "
+                       "killed the store while the flusher wrote (%d)" % (held, killed))
+    ck.note("background flusher: held with an image in hand in %d executions, %d executions killed while it wrote" % (held, killed))
+    ck.note("directed families: %d executions killed right after a compaction's rename (run X); %d limited histories "
+            "with a compaction inside clear()'s sequence of file operations (run L)" % (n, m))
 
 
 def drive(ck, name, cases, depth, cuts1, cuts2, cap):
